@@ -250,9 +250,16 @@ impl Channel {
         chan.busy = false;
         chan.transmission_finish_time = SimTime::ZERO;
 
-        if let Some((msg, next_gate)) = chan.buffer.dequeue() {
+        // A message whose transmission time is zero does not make the channel busy
+        // (and schedules no further unbusy notification), so keep dequeuing until
+        // the channel is busy again or the buffer is empty.
+        while !chan.busy {
+            let Some((msg, next_gate)) = chan.buffer.dequeue() else {
+                break;
+            };
             drop(chan);
-            self.send_message(msg, next_gate, sink);
+            self.clone().send_message(msg, next_gate, sink);
+            chan = self.inner.write().unwrap();
         }
     }
 }
